@@ -343,6 +343,37 @@ func castOracles(rep *streamReport, props map[string]bool, t castTarget, v inter
 			}
 		}
 	}
+	// ---- the oracle hypotheses H-float-rt / H-float-syn / H-float-nonfinite, tested on the real strconv ----
+	if props["C12"] && t.name == "string" {
+		var x64 float64
+		bits := 0
+		switch x := v.(type) {
+		case float64:
+			x64, bits = x, 64
+		case float32:
+			x64, bits = float64(x), 32
+		}
+		if bits != 0 {
+			rep.OracleChecks["H-float"]++
+			txt := strconv.FormatFloat(x64, 'f', -1, bits)
+			if math.IsNaN(x64) || math.IsInf(x64, 0) {
+				if txt != "NaN" && txt != "+Inf" && txt != "-Inf" {
+					addViolation(rep, "C12", "oracle hypothesis H-float-nonfinite does not hold for the installed strconv: "+txt, in())
+				}
+			} else {
+				back, err := strconv.ParseFloat(txt, bits)
+				if err != nil || math.Float64bits(back) != math.Float64bits(x64) {
+					addViolation(rep, "C12", "oracle hypothesis H-float-rt does not hold for the installed strconv: "+txt, in())
+				}
+				if !plainDecimalRe.MatchString(txt) {
+					addViolation(rep, "C12", "oracle hypothesis H-float-syn does not hold for the installed strconv: "+txt, in())
+				}
+				if bits == 32 && math.Float32bits(float32(x64)) != math.Float32bits(v.(float32)) {
+					addViolation(rep, "C12", "float32 -> float64 -> float32 is not the identity", in())
+				}
+			}
+		}
+	}
 	// ---- C14 (cast level): explicit offsets, integer seconds ----
 	if props["C14"] && !o.panicked && t.name == "time.Time" {
 		switch x := v.(type) {
